@@ -12,7 +12,7 @@ pub fn entry() -> crate::Entry {
     crate::Entry { id: "C04", run, space, replay }
 }
 
-pub const EDIT_KINDS: [&str; 4] = ["set-text", "set-number", "set-blank", "remove"];
+pub const EDIT_KINDS: [&str; 6] = ["set-text", "set-number", "set-blank", "remove", "set-style", "set-hyperlink"];
 
 /// Full dump with the normalisations the writer is documented to perform removed on BOTH sides
 /// (each one is listed in the evidence):
@@ -542,7 +542,7 @@ impl Space for Stability {
             for (ci, (col, row)) in coords.iter().enumerate() {
                 for (k, kind) in EDIT_KINDS.iter().enumerate() {
                     // all kinds for the first cells, then rotate kinds to keep the cost linear
-                    if ci >= 4 && (ci + k) % 4 != 0 {
+                    if ci >= 4 && (ci + k) % EDIT_KINDS.len() != 0 {
                         continue;
                     }
                     if edits >= max_edits {
@@ -561,6 +561,17 @@ impl Space for Stability {
                             }
                             "set-blank" => {
                                 w.get_cell_mut((*col, *row)).set_blank();
+                            }
+                            "set-style" => {
+                                // a style no other cell has: new entries in the font / fill / cellXfs tables
+                                let st = w.get_cell_mut((*col, *row)).get_style_mut();
+                                st.get_font_mut().set_name("Edited Font").set_size(13.5).set_italic(true);
+                                st.set_background_color("FF12AB34");
+                            }
+                            "set-hyperlink" => {
+                                let mut h = Hyperlink::default();
+                                h.set_url("https://example.com/edited?a=1&b=2");
+                                w.get_cell_mut((*col, *row)).set_hyperlink(h);
                             }
                             _ => {
                                 w.remove_cell((*col, *row));
